@@ -129,7 +129,16 @@ def gen_case(rng):
         elif r < 0.8:
             steps.append({"outdocs": True})
         else:
-            steps.append({"out": rng.choice(FMTS)})
+            f = rng.choice(FMTS)
+            steps.append({"out": f})
+            q = rng.random()
+            if q < 0.15:
+                # the same bytes through the other output methods: OutputToWriter (format given / defaulted), OutputToFile
+                steps.append({"out": f, "via": "writer"})
+            elif q < 0.3:
+                steps.append({"out": f, "via": "file-ext"})
+            elif q < 0.4:
+                steps += [{"out": "json-pretty"}, {"out": "json-pretty", "via": "writer-default"}]
     steps += [{"docs": True}, {"outdocs": True}, {"outdocs": True}, {"docs": True}]
     return {"steps": steps, "env": gen.ENV}
 
